@@ -5,16 +5,11 @@ from ..specs import operators as optab
 from . import coretypes as ct
 from . import array_folds as af
 
-EXPLANATION = (
-    "Static rules on core/array.py: (R1) the six comparison and three binary logical dunders resolve to "
-    "_binary_op(<numpy comparison/logical ufunc>, self, other) with strict conversion, ~a to np.logical_not(a); (R2) on every "
-    "strict path of _binary_op the right operand is converted to the unit of the left one before the ufunc is called, a "
-    "failed conversion is not caught, and a conversion to an equal unit is the identity (no float round trip of integer "
-    "values); (R3) boolean results are never given a unit (dtype predicate evaluated over a model of numpy dtypes) and "
-    "no comparison ufunc is in the unit-transforming set.")
-NOT_DECIDED = "the verdict of each element-wise comparison as a number (numpy after pint); broadcasting shapes"
-TRUSTED = ("CPython ast", "numpy/pint behave as documented", "S4 operator table", "numpy dtype model")
+EXPLANATION = '(R1) every comparison/logical dunder of Array evaluated with _binary_op stubbed, as a TRUTH SET over the element-wise relation of the operands {lt, eq, gt, unordered} (resp. boolean pairs): it must equal the truth set of the numpy function the Python data model prescribes (so ~(a > b) is not accepted for <=: it differs on NaN), strict, operands in order; (R2) _binary_op (strict) over operand kinds x unit relations, Array.to, Array.__init__ (shared with C02); (R3) boolean results are dimensionless over the dtype model.'
+NOT_DECIDED = "numpy's comparison of the converted numbers; floating-point rounding of the conversion"
+TRUSTED = ('CPython ast', 'IEEE/numpy comparison semantics encoded in the truth sets', 'S4 operator table', 'the interpreter sa/models.py (ModelEval) and its library models')
 
+TECHNIQUE = 'static analysis: finite truth-set semantics for the comparison operators, abstract interpretation of the Array class over unit/buffer tokens'
 
 def r1_table(run, tree):
     run.rule("C07.R1", "comparison/logical operator table", "S4 table", "Python data model", floor=10)
